@@ -1628,12 +1628,13 @@ class SQLModel:
                 sub_view_name_second=left_qqn,
                 cols=[ci for ci in common if ci in using],
             )
+        # named with their side: a physical table may hold more columns than its description lists
         for ci in using_left:
             if ci not in common:
-                terms[ci] = None
+                terms[ci] = left_qqn + "." + self.quote_identifier(ci)
         for ci in using_right:
             if ci not in common:
-                terms[ci] = None
+                terms[ci] = right_qqn + "." + self.quote_identifier(ci)
         on_terms = []
         if len(join_node.on_a) > 0:
             on_terms = ["ON " + self.on_start] + self._indent_and_sep_terms(
